@@ -5,14 +5,22 @@ import asyncio
 from replay.common import *
 
 saved = []
+gate_b = None        # created inside the running loop
 
 
 class SlowStore:
+    """no timing involved: the save of b waits until the save of the output node has started, the save of the output node
+    never finishes on its own"""
+
     def __init__(self, ctx, *a, **k):
         self.ctx = ctx
 
     async def save(self, node_id, data):
-        await asyncio.sleep(0.065 if node_id.endswith('b') else 0.02)
+        if node_id.endswith('__b'):
+            await gate_b.wait()
+        elif node_id.endswith('__out'):
+            gate_b.set()
+            await asyncio.Event().wait()
         saved.append(node_id)
 
     async def load(self, node_id):
@@ -30,7 +38,6 @@ class A(ProcessorBase):
     name = 'a'
 
     async def process(self, x: Input(Inp)) -> int:
-        await asyncio.sleep(0.03)
         return x + 1
 
 
@@ -49,6 +56,8 @@ class Out(ProcessorBase):
 
 
 async def main():
+    global gate_b
+    gate_b = asyncio.Event()
     k, r = await run_with_watchdog(chart(Inp, Out, artifact_store=SlowStore).run(input_kwargs=dict(x=1)))
     await asyncio.sleep(0.2)
     print(k, getattr(r, 'value', r), getattr(r, 'error', None), saved)
